@@ -67,11 +67,20 @@ def est_horizon(spec: Dict[str, Any]) -> float:
         beh = m.get("beh", {})
         behs = beh if isinstance(beh, list) else [beh]
         for b in behs:
+            d_ = 0.0
+            never = False
             for s in b.get("dur", []):
                 if isinstance(s, (int, float)):
-                    tot += s
+                    d_ += s
                 elif isinstance(s, str) and s.startswith("w"):
-                    tot += float(s[1:])
+                    d_ += float(s[1:])
+                elif s == "never":
+                    never = True
+            tmo = m.get("timeout")
+            if isinstance(tmo, (int, float)) and tmo > 0 and (never or d_ > tmo):
+                d_ = float(tmo)  # the body is cut by its timeout label ...
+                d_ += sum(x for x in b.get("cleanup", []) if isinstance(x, (int, float)))  # ... and winds down
+            tot += d_
         tot += 0.5  # hook / ack / backend latencies
     return last + tot + 0.4 * (len(spec.get("msgs", [])) + 2) + 20.0
 
